@@ -383,6 +383,8 @@ def run_rules(ctx, res):
                 brace_depth += 1
                 if i >= 2 and toks[i - 2].s == "impl":
                     impl_stack.append((brace_depth, tkey(t, toks[i - 1])))
+                elif i >= 2 and toks[i - 2].s == "for" and any(toks[j].s == "impl" for j in range(max(0, i - 12), i - 2)):
+                    impl_stack.append((brace_depth, tkey(t, toks[i - 1])))  # impl Trait<..> for X {
                 if i >= 2 and toks[i - 2].s == "enum":
                     enum_body.append(brace_depth)
             elif s_ == "}":
@@ -456,6 +458,13 @@ def run_rules(ctx, res):
                     hk = tkey(t, head)
                 elif head.k == "ident" and head.s == "Self" and impl_stack:
                     hk = impl_stack[-1][1]
+                if head.k == "ident" and head.s == "Self" and impl_stack and hk not in internal_enums and ("user:" in (hk or "")) and tok.k == "ident" and first_letter(tok.s) is not None and first_letter(tok.s).isupper():
+                    # `Self::Name` inside an impl for a *user* type: a user enum may have a variant of any capitalised name
+                    n_path += 1
+                    key = "self-assoc|Self::%s|%s" % (tok.s, hk)
+                    res.inst(PATH, key, where, True, "literal `Self::%s` in an impl for a user type" % tok.s)
+                    res.violate(PATH, key, where, "`Self::%s` inside an impl for a user type: when the user's enum has a variant called `%s` the path is ambiguous between the variant and the associated item (rustc lint ambiguous_associated_items, deny by default) and the emitted module does not compile" % (tok.s, tok.s))
+                    continue
                 if hk is not None and hk in internal_enums:
                     n_path += 1
                     en = internal_enums[hk]
@@ -608,6 +617,23 @@ def run_rules(ctx, res):
     for v in tmp2.violations:
         res.violate(DIMS, v.key, v.where, v.msg + " — the emitted arrays then have fewer columns than their declared length")
     bad_lists = {v.key.split("|", 1)[1] for v in tmp2.violations if "|" in v.key}
+    # numbering of the emitted kind / state / rule-kind enums (C01's rule on the same facts): a dispatch arm or table
+    # cell that names a variant the enum does not declare does not compile
+    from . import c01 as _c01
+    tmp3 = R2("C01", "quick", "other")
+    _c01.check_kinds(ctx, syn, efile, ts, tmp3, "R-C01-kinds", "R-C01-payload", mir)
+    vk = [v for v in tmp3.violations if v.rule in ("R-C01-kinds", "floor")]
+    res.inst(DIMS, "enum-numbering (C01 kinds rule)", "", True, "%d violations" % len(vk))
+    for v in vk:
+        res.violate(DIMS, "numbering|" + v.key, v.where, v.msg)
+    # payload types are spliced into the module as text: the printer must reproduce them token for token (C13's rule)
+    from . import c13 as _c13
+    tmp4 = R2("C13", "quick", "other")
+    _c13.run_printer_rules(ctx, tmp4)
+    vp = [v for v in tmp4.violations if v.rule in ("R-C13-printer", "R-C13-flatten", "floor")]
+    res.inst(LIT, "payload-type printer (C13 printer rule)", "", True, "%d violations" % len(vp))
+    for v in vp:
+        res.violate(LIT, "payload-printer|" + v.key, v.where, "a payload type that is printed wrongly is spliced into the emitted module and does not compile: " + v.msg)
     dims.run(ctx, syn, efile, fmt, res, DIMS, {"table.terminals": cols_ok or "terminals" not in bad_lists, "table.nonterminals": cols_ok or "nonterminals" not in bad_lists} if note != "no Table aggregate found" else {})
 
 
